@@ -514,6 +514,7 @@ func (u *Unit) runDefers(st *State, from int) []*State {
 					continue
 				}
 				u.note("abstracted", "deferred call through function value")
+				u.setHeap(s, "G$lastfv", sArr(SInt, SInt), tStore(u.heapTerm(s, "G$lastfv", sArr(SInt, SInt)), "0", fv.S))
 				next = append(next, s)
 				continue
 			}
